@@ -21,7 +21,7 @@ table = ("| id | property | change | needs, to manifest | confirmed (baseline gr
 p = os.path.join(ROOT, "DESIGN.md")
 t = open(p).read()
 if "<!-- SEEDED-TABLE-BEGIN -->" in t:
-    t = re.sub(r"<!-- SEEDED-TABLE-BEGIN -->.*<!-- SEEDED-TABLE-END -->", "<!-- SEEDED-TABLE-BEGIN -->\n" + table + "\n<!-- SEEDED-TABLE-END -->", t, flags=re.S)
+    t = re.sub(r"<!-- SEEDED-TABLE-BEGIN -->.*<!-- SEEDED-TABLE-END -->", lambda m: "<!-- SEEDED-TABLE-BEGIN -->\n" + table + "\n<!-- SEEDED-TABLE-END -->", t, flags=re.S)
 else:
     t = t.replace("SEEDED_TABLE_PLACEHOLDER", "<!-- SEEDED-TABLE-BEGIN -->\n" + table + "\n<!-- SEEDED-TABLE-END -->")
 open(p, "w").write(t)
